@@ -6,8 +6,8 @@ src="$1"; name="$2"; prop="$3"; chk="$4"; note="${5:-}"
 [ -f "$src/confirm.json" ] || { echo "$name: not confirmed yet"; exit 1; }
 out=$(/verif/tools/mutant.sh "$src/patch.diff" "$chk" 2>&1)
 if echo "$out" | grep -q '^VIOLATION'; then
-  key=$(echo "$out" | grep -o 'VERIF-KEY:[a-z0-9-]*\|panic: [^(]*\|WARNING: DATA RACE' | head -1)
-  first=$(echo "$out" | grep -m1 'VERIF-KEY\|panic\|DATA RACE' | sed 's/^.*\(VERIF-KEY\|panic\)/\1/' | cut -c1-220)
+  key=$(echo "$out" | grep -o 'VERIF-KEY:[a-z0-9-]*' | head -1)
+  first=$(echo "$out" | grep -m1 'VERIF-KEY\|panic\|data race inside' | sed 's/^.*\(VERIF-KEY\|panic\|data race inside\)/\1/' | cut -c1-220)
   caught="$chk quick: $first"
 else
   caught="MISSED"
